@@ -48,6 +48,8 @@ TREES = {
 # exactly 2^k matching entries (internal batches and buffers have power-of-two sizes)
 for _k in (10, 11, 12, 13):
     TREES['pow%d' % _k] = {'f%05d' % i: F(1 + i % 5) for i in range(2 ** _k)}
+# ... and a long buffer whose mean is a whole number (every function in front of every other one)
+TREES['pow_600'] = {'f%05d' % i: F(1 + i % 5) for i in range(600)}
 ARGS = ['size', 'hardlinks', 'uid', 'line_count', 'length(name)', 'size - 10', 'size / 2', '0 - length(name)', '-size', '-length(name)', '1', '2 + 3']
 EXPR_ARGS = ('size - 10', 'size / 2', '0 - length(name)', '-size', '-length(name)', '1', '2 + 3')        # values that are negative or fractional
 WHERES = [('none', None, lambda e: True), ('all', 'size gte 0', lambda e: True),
@@ -121,6 +123,8 @@ def groups(tier, seed):
                     if arg != 'size' or wname not in ('none', 'files') or (tname == 'pow13' and wname == 'files' and tier == 'quick'):
                         continue
                     sets_ = [['count', 'min', 'max']] if wname == 'files' else [['count', 'min', 'max'], FUNCS[:5], FUNCS]
+                    if tname == 'pow_600':
+                        sets_ = [list(reversed(FUNCS))] + ([[a_, b_] for a_, b_ in itertools.permutations(FUNCS[1:], 2)] if wname == 'none' else [])
                     yield {'tree': tname, 'arg': arg, 'where': wname, 'cases': [{'funcs': ss, 'style': 0} for ss in sets_]}
                     continue
                 cases = []
